@@ -6,7 +6,8 @@ import Cellml.Model.ConvertVar
     `(C06 (vars (name scale (d0 … d7) init cmeta) …) (eqs (lhs rhs) …) (steps (v scale (d0 … d7) cf in|out move) …)
           (points ((id value) …) …))`
     → one entry per step: `(ret raised (vars …) (eqs …) (vardef ids) (odedef ids) free (cmeta (id var) …) (rep …)
-                            (values per point: ((var values) (derivative values))))`.
+                            (values per point: ((var values) (derivative values)))
+                            (per equation: both sides have the same units? `none` with function symbols))`.
     Expressions: `(v i) (d x t) (q value scale dims) (+ a b) (- a b) (* a b) (/ a b) (f1 "name" a) (f2 "name" a b)`.
     The points give values to the state variables and the free variable of the *initial* model; after an INPUT
     conversion of one of them the new variable takes over with `cf ×` the value. The model is then evaluated exactly
@@ -139,7 +140,11 @@ def snapshot (s : CState) (ret : Nat) (rep : Rep) (pts : List (List (Nat × Rat)
     .list (s.varDef.map fun p => ofNat p.1), .list (s.odeDef.map fun p => ofNat p.1), ofOpt ofNat (getFree s),
     .list (s.cmetaMap.map fun p => .list [.str p.1, ofNat p.2]),
     .list (rep.map fun p => .list [ofNat p.1.1, ofNat p.1.2, ofNat p.2]),
-    .list (pts.map (ofValues s))]
+    .list (pts.map (ofValues s)),
+    .list (s.equations.map fun e =>
+      match unitOf ⟨fun _ _ => none, fun _ _ _ => none⟩ s e.rhs with
+      | some u => ofBool (u == lhsUnit s e.lhs)
+      | none => .atom "none")]
 
 def movePoint (st : Step) (nv : Nat) (pt : List (Nat × Rat)) : List (Nat × Rat) :=
   match st.dir, pt.lookup st.v with
